@@ -784,6 +784,10 @@ def m1_m4_scenes_image(ctx: Any, prog: Program) -> None:
             raise AnalysisError('scenes.image summary loops not found')
         rsum = [s for s in rloop[0].body if isinstance(s, ast.If) and 'version == 3' in U(s.test)]
         wsum = [s for s in wloop[0].body if isinstance(s, ast.If) and 'version == 3' in U(s.test)]
+        if not rsum or not wsum:
+            # the version test is no longer an `if` statement (a conditional expression chooses the header): not modelled here
+            ctx.shape('C20.M1', False, mod, (wloop[0] if not wsum else rloop[0]), f'summary record v{ver}: the `if version == 3` statement choosing the summary layout was not found', func='save_scenes_image_sync', text=f'scenes.image summary v{ver}')
+            continue
         rs, ws = norm(r.block(rsum)), norm(w.block(wsum))
         if '[' in rs or '[' in ws:
             ctx.shape('C20.M1', False, mod, wsum[0], f'summary record v{ver}: a gate is not decided by the configuration (reader `{rs}`, writer `{ws}`)', func='save_scenes_image_sync', text=f'scenes.image summary v{ver}')
